@@ -33,6 +33,7 @@ regenerated negation table is a true negation except `is_`/`is_not` with themsel
 namespace SaVerif.Props.C01
 open SaVerif.Expr SaVerif.Pratt SaVerif.Expr.Gen
 
+
 /-! ## §1 the backend reads a well-bracketed tree back as itself -/
 
 /-- **parse_print_roundtrip** (full strength: every grammar, every tree of any size). -/
@@ -255,6 +256,9 @@ theorem api_tree_read_back_mysql (u : U) (e : SaExpr) (hu : NumU u = true ∨ Bo
     parse mysql (render .mysql true e).print = some (render .mysql true e).norm :=
   api_tree_read_back .mysql mysql coreCompat_mysql prefixNoTern_mysql u e hu hb
 
+section Sem
+variable [Abs]
+
 /-- the standard three-valued interpretation satisfies the hypotheses of the value theorems -/
 theorem stdI_assoc (env : String → Val) :
     ∀ s, G.assocSym s = true → ∀ a b c : SV,
@@ -285,7 +289,7 @@ theorem api_tree_value_bool (d : Dialect) (g : Grammar) (hg : coreCompat g = tru
     (hpt : prefixNoTern g) (env : String → Val) (u : U) (e : SaExpr)
     (hu : BoolU u = true) (hn : noIsGen u = true) (hb : build u = some e) :
     (parse g (render d true e).print).map (fun t => truth (evalG (stdI env) t).scalar)
-      = some (evalBoolU env u) := by
+      = some (evalBoolU env d u) := by
   have hcw := build_core_WG u e (Or.inr hu) hb
   have h1 := backend_value_of_text g (stdI env) (stdI_assoc env) (render d true e)
     (wb_norm_of_ok g _ (ok_render g (compat_of_bool g hg) hpt d e hcw.1 hcw.2))
@@ -295,14 +299,17 @@ theorem api_tree_value_bool (d : Dialect) (g : Grammar) (hg : coreCompat g = tru
     rw [hp] at h1
     simp only [Option.map_some, Option.some.injEq] at h1 ⊢
     rw [h1, evalG_render env d e hcw.1]
-    exact (build_bool_eval env u e hu hn hb).1
+    exact (build_bool_eval env d u e hu hn hb).1
 
-/-- the same for numeric trees (value, NULL included) -/
+/-- the same for numeric trees (value, NULL included): arithmetic, scalar subqueries (an
+    abstract value per row), `cast` (the value of the dialect's CAST to the rendered type name is
+    abstract: `Abs.castF`), `func.coalesce`, searched and simple `case` — whose conditions are
+    boolean trees of the fragment -/
 theorem api_tree_value_num (d : Dialect) (g : Grammar) (hg : coreCompat g = true)
     (hpt : prefixNoTern g) (env : String → Val) (u : U) (e : SaExpr)
-    (hu : NumU u = true) (hb : build u = some e) :
+    (hu : NumU u = true) (hn : noIsGen u = true) (hb : build u = some e) :
     (parse g (render d true e).print).map (fun t => (evalG (stdI env) t).scalar)
-      = some (evalNumU env u) := by
+      = some (evalNumU env d u) := by
   have hcw := build_core_WG u e (Or.inl hu) hb
   have h1 := backend_value_of_text g (stdI env) (stdI_assoc env) (render d true e)
     (wb_norm_of_ok g _ (ok_render g (compat_of_bool g hg) hpt d e hcw.1 hcw.2))
@@ -312,7 +319,7 @@ theorem api_tree_value_num (d : Dialect) (g : Grammar) (hg : coreCompat g = true
     rw [hp] at h1
     simp only [Option.map_some, Option.some.injEq] at h1 ⊢
     rw [h1, evalG_render env d e hcw.1]
-    exact build_num_eval env u e hu hb
+    exact build_num_eval env d u e hu hn hb
 
 /-- the same statement about `emit` (= `render ∘ lower`, the compiler's full pipeline including
     the compile-time rewriting of the LIKE-based string operators, which is the identity on
@@ -321,15 +328,17 @@ theorem api_tree_value_bool_emit (d : Dialect) (g : Grammar) (hg : coreCompat g 
     (hpt : prefixNoTern g) (env : String → Val) (u : U) (e : SaExpr)
     (hu : BoolU u = true) (hn : noIsGen u = true) (hb : build u = some e) :
     (parse g (emit d e).print).map (fun t => truth (evalG (stdI env) t).scalar)
-      = some (evalBoolU env u) := by
+      = some (evalBoolU env d u) := by
   rw [emit_core d e (build_core_WG u e (Or.inr hu) hb).1]
   exact api_tree_value_bool d g hg hpt env u e hu hn hb
 
 theorem api_tree_value_bool_sqlite (env : String → Val) (u : U) (e : SaExpr)
     (hu : BoolU u = true) (hn : noIsGen u = true) (hb : build u = some e) :
     (parse sqlite (render .sqlite true e).print).map (fun t => truth (evalG (stdI env) t).scalar)
-      = some (evalBoolU env u) :=
+      = some (evalBoolU env .sqlite u) :=
   api_tree_value_bool .sqlite sqlite coreCompat_sqlite prefixNoTern_sqlite env u e hu hn hb
+
+end Sem
 
 /-- non-vacuity: a tree of the fragment with nesting, flattening, negation and `IS NULL` -/
 example : BoolU (.not_ (.and_ [.bin .eq (.col "a" .int) (.li 1),
@@ -337,6 +346,31 @@ example : BoolU (.not_ (.and_ [.bin .eq (.col "a" .int) (.li 1),
             .not_ (.bin .is_ (.neg (.col "a" .int)) .null)],
       .and_ [.bin .ge (.bin .mod (.col "a" .int) (.li 3)) (.li 0)]])) = true := by
   decide
+
+/-- non-vacuity for the bracket constructs: a searched CASE whose conditions are boolean trees
+    and whose results are a COALESCE, a CAST of a scalar subquery, a simple CASE — in the
+    fragment, free of `is_` between general operands, and builds -/
+def bracketTree : U :=
+  .case_ .absent
+    [.bin .gt (.col "a" .int) (.li 0), .coalesce [.col "b" .int, .bin .add (.col "a" .int) (.li 7)],
+     .not_ (.bin .eq (.col "b" .int) .null), .cast .int (.subq "q" .num),
+     .or_ [.bin .lt (.col "a" .int) (.li 5), .bin .is_ (.col "b" .int) .null],
+       .case_ (.col "a" .int) [.li 1, .li 10, .bin .add (.li 1) (.li 1), .neg (.col "b" .int)] .absent]
+    (.neg (.col "a" .int))
+
+example : NumU bracketTree = true ∧ noIsGen bracketTree = true ∧ (build bracketTree).isSome = true := by
+  decide +kernel
+
+/-- … and the meaning is the expected one (every column and the subquery holding the same
+    value, CAST interpreted as the identity): 3 gives COALESCE(3, 3 + 7) = 3 by the first
+    branch, -4 gives the CAST of the subquery by the second, NULL reaches the third branch
+    (`b IS NULL`) whose simple CASE matches nothing and has no ELSE: NULL -/
+example : @evalNumU ⟨fun _ _ => .null, fun _ v => v⟩ (fun _ => .int 3) .sqlite bracketTree = .int 3 := by
+  decide +kernel
+example : @evalNumU ⟨fun _ _ => .null, fun _ v => v⟩ (fun _ => .int (-4)) .sqlite bracketTree = .int (-4) := by
+  decide +kernel
+example : @evalNumU ⟨fun _ _ => .null, fun _ v => v⟩ (fun _ => .null) .sqlite bracketTree = .null := by
+  decide +kernel
 
 /-- the constructors establish the hypothesis `WG` (and stay in the fragment):
     `BinaryExpression.__init__`, `UnaryExpression.__init__`, `_construct_for_list` -/
